@@ -166,6 +166,35 @@ def check_manager(ctx, F, crate, rule="E-EVENT"):
             ctx.ob(rule_, rule_ + ":gc:try_lock-first",
                    all(B.dominates(trylock[0], x) for x in bump + pre + sweeps),
                    "%s (%s): gc_ongoing.try_lock must dominate the collection (two concurrent collections otherwise)" % (nice, where))
+            # polarity of the try_lock test: the collection runs on the "lock obtained" edge, the early return on the other
+            m_ = F.mir[fid]
+            pol = None
+            tb = m_["blocks"][trylock[0]]["t"]
+            cur, val, neg = tb.get("t"), cfg.place_local(tb["d"]) if tb.get("d") is not None else None, False
+            for _ in range(4):
+                if cur is None or val is None:
+                    break
+                blk = m_["blocks"][cur]
+                for st_ in blk["s"]:
+                    rv_ = st_.get("rv") or {}
+                    if rv_.get("k") == "un" and rv_.get("o") == "Not" and cfg.op_place(rv_.get("a", rv_.get("op"))) == val and isinstance(st_.get("lhs"), int):
+                        val, neg = st_["lhs"], not neg
+                    elif rv_.get("k") == "use" and cfg.op_place(rv_.get("op")) == val and isinstance(st_.get("lhs"), int):
+                        val = st_["lhs"]
+                tt = blk["t"]
+                if tt["k"] == "switch" and cfg.op_place(tt["d"]) == val:
+                    zero = [b_ for v_, b_ in tt["t"] if int(v_) == 0]
+                    if len(zero) == 1:
+                        t_edge, f_edge = (zero[0], tt["o"]) if neg else (tt["o"], zero[0])     # edge taken when try_lock() returned true / false
+                        r_t = B.reachable_from(t_edge, avoid=(cur,))
+                        r_f = B.reachable_from(f_edge, avoid=(cur,))
+                        pol = all(s_ in r_t and s_ not in r_f for s_ in sweeps)
+                    break
+                cur = tt.get("t") if tt["k"] == "goto" else None
+            ctx.ob(rule_, rule_ + ":gc:try_lock-polarity", pol is True,
+                   "%s (%s): %s" % (nice, where, "the collection runs exactly when gc_ongoing.try_lock() succeeded" if pol else
+                                    "the sweep does not sit on the edge where gc_ongoing.try_lock() returned true: the collection is skipped when "
+                                    "the lock is free (nothing is ever collected) or runs without the lock"))
             ctx.ob(rule_, rule_ + ":gc:epoch-bump", all(any(B.dominates(x, s) for x in bump) for s in sweeps),
                    "%s (%s): gc_count must be bumped before any node is removed (count caches key on it)" % (nice, where))
             tests = field_test_branches(B, "reorder_gc_prepared")
